@@ -154,7 +154,29 @@ Proof. rewrite gen_gt_eq. exact (C03_gt a b). Qed.
 Theorem gen_eq_iff a b : gen__eq__ a b = true <-> a = b.
 Proof. rewrite gen_eq_eq. exact (C03_eq a b). Qed.
 
+(* ---- addSec / addMin / addHour / addDay / __sub__ (whole seconds) ---- *)
+Theorem gen_addSec_eq t n : gen_addSec (fuel_for (to_abs t + n)) t n = add_sec t n.
+Proof. unfold gen_addSec, add_sec. rewrite gen_toAbsTime_eq. apply gen_readUnixTime_eq. Qed.
+
+Theorem gen_addMin_eq t n : gen_addMin (fuel_for (to_abs t + n * 60)) t n = add_sec t (n * 60).
+Proof. unfold gen_addMin, add_sec. rewrite gen_toAbsTime_eq. apply gen_readUnixTime_eq. Qed.
+
+Theorem gen_addHour_eq t n : gen_addHour (fuel_for (to_abs t + n * 3600)) t n = add_sec t (n * 3600).
+Proof. unfold gen_addHour, add_sec. rewrite gen_toAbsTime_eq. apply gen_readUnixTime_eq. Qed.
+
+Theorem gen_addDay_eq t n : gen_addDay (fuel_for (to_abs t + n * 86400)) t n = add_sec t (n * 86400).
+Proof. unfold gen_addDay, add_sec. rewrite gen_toAbsTime_eq. apply gen_readUnixTime_eq. Qed.
+
+Theorem gen_sub_eq a b : gen__sub__ a b = to_abs a - to_abs b.
+Proof. unfold gen__sub__. rewrite !gen_toAbsTime_eq. reflexivity. Qed.
+
+(* adding seconds moves the instant by that amount (C03_add_sec), for the generated addSec *)
+Theorem gen_addSec_ok d n : 0 <= to_abs d + n ->
+  let r := gen_addSec (fuel_for (to_abs d + n)) d n in wf r = true /\ gen_toAbsTime r = gen_toAbsTime d + n /\ 1970 <= year r.
+Proof. intros H. cbv zeta. rewrite gen_addSec_eq, !gen_toAbsTime_eq. exact (C03_add_sec d n H). Qed.
+
 Print Assumptions gen_seconds_roundtrip.
+Print Assumptions gen_addSec_ok.
 Print Assumptions gen_lt_iff.
 Print Assumptions gen_eq_iff.
 Print Assumptions gen_calendar_roundtrip.
